@@ -129,7 +129,48 @@ def multi(case):
     return {"multi": out}
 
 
+@dataclass(eq=False)
+class N0(Symbol):
+    p: Y
+
+
+@dataclass(eq=False)
+class N1(Symbol):
+    p: Y
+    r: Y
+
+
+def newvar(case):
+    """RuleNewVar.tla: a refinement whose condition introduces a variable of its own; the inferred instances as a set of
+    (type, x index, y index), in two orders of the y domain."""
+    SymbolGraph().clear()
+    out = []
+    for rev in (False, True):
+        xs = [Y(a, 0, f"x{i + 1}") for i, a in enumerate(case["xa"])]
+        ys = [Y(a, 0, f"y{i + 1}") for i, a in enumerate(case["ya"])]
+        x = let(Y, xs, name="x")
+        y = let(Y, list(reversed(ys)) if rev else ys, name="y")
+        q = an(entity(v := let(N0, None), x.b == 0))
+        try:
+            with q:
+                Add(v, inference(N0)(p=x))
+                with refinement(y.a == x.a):
+                    Add(v, inference(N1)(p=x, r=y))
+            res = []
+            for r in q.evaluate():
+                if r is None:
+                    continue
+                res.append([type(r).__name__.replace("N", "T"), int(r.p.name[1:]), int(r.r.name[1:]) if isinstance(r, N1) else 0])
+            out.append(sorted(res))
+        except Exception as ex:
+            out.append(f"{type(ex).__name__}: {ex}")
+        SymbolGraph().clear()
+    return {"newvar": out}
+
+
 def handle(case):
+    if "xa" in case:
+        return newvar(case)
     if "template" in case:
         return multi(case)
     SymbolGraph().clear()        # inferred instances of earlier cases must not be candidates for `let(T0, None)`
@@ -153,7 +194,16 @@ def handle(case):
 
     out = {}
     try:
-        if case.get("base_last"):
+        if case.get("grow"):
+            # the rule is evaluated, THEN extended by its branches, then evaluated again - twice
+            with q:
+                Add(v, inference(T[0])(p=x))
+            if case["grow"] != "no_evaluation":
+                list(q.evaluate())
+            with q:
+                emit(case["prog"])
+            list(q.evaluate())
+        elif case.get("base_last"):
             # the rule written in two steps: first the branches, later (a second `with query:`) the base conclusion
             with q:
                 emit(case["prog"])
